@@ -172,7 +172,7 @@ package document
 //@ spec tocMax(config *TOCConfig) int = ite(config == nil, 3, config.MaxLevel)
 //@ spec tocTitleOK(x any, title string) bool = isPara(x) && len(x.(*Paragraph).Runs) == 1 && x.(*Paragraph).Runs[0].Text.Content == title && x.(*Paragraph).Properties != nil && x.(*Paragraph).Properties.ParagraphStyle == nil
 //@ func (*Document).GenerateTOC
-//@ props C15, C13
+//@ props C15
 //@ requires d != nil && d.Body != nil && elemsOK(d.Body.Elements)
 //@ ensures result == nil
 //@ ensures len(d.Body.Elements) == old(len(d.Body.Elements)) + 1
